@@ -10,10 +10,14 @@ pub fn run(tier: Tier, seed: u64) {
         "zkabacus_crypto::customer::{Requested::complete, Inactive::{activate, close}, Ready::{start, close}, Started::{lock, close}, Locked::{unlock, close}}",
         "zkabacus_crypto::merchant::Config::check_close_signature",
     ]);
-    eng::bound("store-and-restore at each of the five stages of establish + one payment (quick: amount 7; thorough: 7, -7, 0), also right after a refused reply; identical randomness = the same draw variables");
+    eng::bound("store-and-restore at each of the five stages of establish + one payment (quick: amount 7; thorough: 7, -7, 0; both tiers: two boundary histories reaching balances 2^63-1 and 0), also right after a refused reply; identical randomness = the same draw variables");
     for a in if tier == Tier::Quick { vec![7i64] } else { vec![7, -7, 0] } {
-        history(seed, a);
+        history(seed, 100, 50, a);
     }
+    // boundary balances: the payment drives the customer / merchant balance to exactly 2^63-1 and to 0
+    let m = i64::MAX as u64;
+    history(seed, m - 10, 10, -10);
+    history(seed, 10, m - 10, 10);
 }
 
 /// store, restore through the real Deserialize; the decode must be forced Ok and re-encode identically
@@ -84,8 +88,8 @@ fn same_verdict<S: Serialize, T, R: DeserializeOwned>(name: &str, a: S, b: S, st
     }
 }
 
-fn history(seed: u64, amt: i64) {
-    let name = format!("C20 history amount={}", amt);
+fn history(seed: u64, c0: u64, m0: u64, amt: i64) {
+    let name = format!("C20 history cb={} mb={} amount={}", c0, m0, amt);
     for stage in ["requested", "inactive", "ready", "started", "locked"] {
         let name = format!("{} restore@{}", name, stage);
         sx::begin(vec![], DrawMode::NonDegenerate, seed);
@@ -94,8 +98,8 @@ fn history(seed: u64, amt: i64) {
         let (ctx, pctx) = (Context::new(b"e"), Context::new(b"p"));
         let cid = channel_id(&w, &mut rng, b"m", b"c");
         sx::set_label("flow");
-        let (req, proof) = CRequested::new(&mut rng, &w.cust, cid, mb(50), cb(100), &ctx);
-        let (closing, vbs) = w.merchant.initialize(&mut rng, &cid, cb(100), mb(50), proof, &ctx).expect("establish");
+        let (req, proof) = CRequested::new(&mut rng, &w.cust, cid, mb(m0), cb(c0), &ctx);
+        let (closing, vbs) = w.merchant.initialize(&mut rng, &cid, cb(c0), mb(m0), proof, &ctx).expect("establish");
         if stage == "requested" {
             let Some(r2) = restore(&name, &req) else { continue };
             let Some((req, r2)) = same_verdict::<_, _, ClosingSignature>(&name, req, r2, |s, r| s.complete(r, &w.cust)) else { continue };
